@@ -2,7 +2,7 @@
    and followed by Print Assumptions (audited by ./check on every run). *)
 From V.lib Require Import Base.
 From V.c05 Require Import C05Model C05FragModel C05OptProofs C05HistProofs C05LazyProofs
-  C05OffProofs C05GhostProofs C05ReadProofs C05RoundProofs C05CodecModel C05CodecProofs C05LazyRoundProofs.
+  C05OffProofs C05GhostProofs C05ReadProofs C05RoundProofs C05CodecModel C05CodecProofs C05LazyRoundProofs C05SingleProofs.
 
 (* OptimizeTfhdTrun, then encode/decode of the trun (structure level: wire_trun), then
    AddSampleDefaultValues with ANY trex (or none) gives back exactly the samples of the trun, for all
@@ -189,6 +189,27 @@ Theorem C05_offsets_partial : forall T ops cs fr,
 Proof. exact offsets_single. Qed.
 Print Assumptions C05_offsets_partial.
 
+(* single-track fragments under ALL six operations (AddFullSample, AddFullSampleToTrack, AddSampleToTrack,
+   AddSample, AddSamples, AddSampleInterval), one data mode per fragment (mode_ok: full samples / metadata only
+   with the data lz written by the caller after the fragment / sample intervals as data parts): for every
+   assignment FL of data pieces to the accepted samples with Sample.Size = len(piece) whose concatenation is the
+   data that was added (resp. written by the caller), the decoded fragment reads back exactly these samples and
+   pieces, with decode times = tfdt + accumulated durations, where tfdt is the fragment's
+   SetBaseMediaDecodeTime value t (for full samples C05_roundtrip_single shows it is the first decode time). *)
+Theorem C05_roundtrip_single_modes : forall T ops cs fr opt fe pos0 tx pre mx post exs FL lz,
+  Forall (fun o => op_dts o < 18446744073709551616) ops ->
+  run_ops (with_extras (create_fragment T) pre mx post exs) ops = (cs, Some fr) ->
+  mode_ok ops cs FL lz ->
+  map fs_s FL = added1 T ops -> Forall sized_f FL -> FL <> [] ->
+  encode_frag opt fr = Ok fe ->
+  moof_size fe + md_header_size (fr_mdat fe) + lenN (flat_map fs_data FL) < 2147483648 ->
+  pos0 + fr_pre fe < 4611686018427387904 ->
+  exists t ex,
+    fr_trafs fr = [mkTraf (create_tfhd T) (set_base t) [canon 0 (added1 T ops)] ex] /\
+    get_full_samples (decoded_view fe pos0 lz) (Some tx) = Ok (if tx_track tx =? T then retime t FL else []).
+Proof. exact roundtrip_single_modes. Qed.
+Print Assumptions C05_roundtrip_single_modes.
+
 (* C05_lazy_equiv, full statement (byte level, NOT proved): encode (run_lazy h) ++ concat (data h) = encode (run_full h).
    Proved part (structure level): replacing every AddFullSample / AddFullSampleToTrack of a history by AddSample /
    AddSampleToTrack (data written separately by the caller) gives the same outcome classes, the same trafs (so
@@ -255,3 +276,19 @@ Example C05_trun_codec_ex :
   dec_trun (trun_size t) (enc_trun_body t)
     = Ok (mkTrun 1 2565 124 33554432 [mkSample 33554432 0 3 (-5); mkSample 0 0 4 2147483647] 0).
 Proof. vm_compute. repeat split. Qed.
+
+(* hypotheses of C05_roundtrip_single_modes in the metadata-only mode: AddSamples of two samples then AddSample,
+   the caller writes 6 bytes; and in the interval mode *)
+Example C05_roundtrip_single_modes_ex :
+  let s k := mkSample 16842752 10 k 0 in
+  let ops := [OMetas [s 2; s 1] 500; OMetaTo 9 (s 1) 0; OMeta (s 3) 520] in
+  let FL := [mkFull (s 2) 0 [1;2]; mkFull (s 1) 0 [3]; mkFull (s 3) 0 [4;5;6]] in
+  exists fr fe, run_ops (with_extras (create_fragment 4) 20 0 8 [5]) ops = ([COk; CErr; COk], Some fr) /\
+    mode_ok ops [COk; CErr; COk] FL [1;2;3;4;5;6] /\ map fs_s FL = added1 4 ops /\ Forall sized_f FL /\
+    encode_frag true fr = Ok fe /\
+    get_full_samples (decoded_view fe 300 [1;2;3;4;5;6]) (Some (mkTrex 4 0 0 0))
+      = Ok [mkFull (s 2) 500 [1;2]; mkFull (s 1) 510 [3]; mkFull (s 3) 520 [4;5;6]].
+Proof.
+  eexists; eexists. split; [vm_compute; reflexivity|]. split; [right; left; split; reflexivity|].
+  split; [reflexivity|]. split; [repeat constructor|]. split; [vm_compute; reflexivity|]. vm_compute. reflexivity.
+Qed.
